@@ -438,7 +438,7 @@ func init() {
 				if tier == "thorough" {
 					return 1500000
 				}
-				return 25000
+				return 40000
 			},
 			Budget: func(tier string) time.Duration {
 				if tier == "thorough" {
